@@ -9,4 +9,7 @@ func init() {
 	reg.Register("cf-run", func(a reg.Args) (interface{}, error) {
 		return cf.Run(a.In, a.Out, a.Seed, a.Sample, a.Reps, a.Workers, a.Only)
 	})
+	reg.Register("cf-dup", func(a reg.Args) (interface{}, error) {
+		return cf.RunDup(a.Out, a.Seed, a.N)
+	})
 }
